@@ -91,7 +91,15 @@ HAND = ["", "\n", "\n\n\n", ">", ">\n", ">a\n", ">a\nACGT\n", ">a\n>b\n", ">a\n\
 @st.composite
 def file_bodies(draw):
     """-> dict(body, wellformed: None | dict(names, seqs))"""
-    mode = draw(st.sampled_from(["good", "good", "mutated", "mutated", "hand", "longname", "oddletters", "emptyrec", "manyrows"]))
+    mode = draw(st.sampled_from(["good", "good", "mutated", "mutated", "hand", "longname", "oddletters", "emptyrec", "manyrows", "manyrec"]))
+    if mode == "manyrec":
+        # a well-formed FASTA file with more records than one / two / three of the readers' 512-entry increments (alone, or
+        # merged behind / in front of other files)
+        n = draw(st.sampled_from([509, 510, 511, 512, 513, 514, 600, 1021, 1022, 1023, 1024, 1025, 1100, 1540]))
+        k, alpha = draw(gen.alphabets())
+        seqs = gen.expand_random(draw(st.integers(0, 2 ** 32 - 1)), alpha, n, 2, draw(st.integers(2, 5)))
+        names = ["m%d" % i for i in range(n)]
+        return {"body": formats.write_fasta(names, seqs, width=0), "wf": {"names": names, "seqs": seqs}, "mode": mode}
     if mode == "hand":
         return {"body": draw(st.sampled_from(HAND)), "wf": None, "mode": mode}
     if mode == "manyrows":
